@@ -263,6 +263,9 @@ loop:
 
 	c = b[0]
 
+	// sensible describes the field being decoded, not the one hf held before.
+	hf.sensible = false
+
 	switch {
 	// Indexed Header Field.
 	// The value must be indexed in the static or the dynamic table.
